@@ -32,7 +32,9 @@ where
 {
     _name: String,
     sender: Sender<ActionOp<T>>,
-    receiver: Receiver<ActionOp<T>>,
+    /// only DropOldest takes items back out of the queue; the other policies must not keep the
+    /// receiving side alive, so that a dropped receiver disconnects the channel
+    receiver: Option<Receiver<ActionOp<T>>>,
     policy: BackpressurePolicy,
     metrics: Option<Arc<dyn Metrics + Send + Sync>>,
 }
@@ -55,7 +57,7 @@ where
         let r = match self.policy {
             BackpressurePolicy::BlockOnFull => {
                 match self.sender.send(item).map_err(|e| SenderError::SendError(e.0)) {
-                    Ok(_) => Ok(self.receiver.len() as i64),
+                    Ok(_) => Ok(self.sender.len() as i64),
                     Err(e) => Err(e),
                 }
             }
@@ -65,14 +67,14 @@ where
                     #[cfg(dev)]
                     eprintln!("store: dropping the oldest item in channel");
                     // Remove the oldest item
-                    let _old = self.receiver.try_recv();
+                    let _old = self.receiver.as_ref().map(|receiver| receiver.try_recv());
                     if let Some(metrics) = &self.metrics {
-                        if let Ok(ActionOp::Action(action)) = _old.as_ref() {
+                        if let Some(Ok(ActionOp::Action(action))) = _old.as_ref() {
                             metrics.action_dropped(Some(action));
                         }
                     }
                     match self.sender.try_send(item).map_err(SenderError::TrySendError) {
-                        Ok(_) => Ok(self.receiver.len() as i64),
+                        Ok(_) => Ok(self.sender.len() as i64),
                         Err(e) => Err(e),
                     }
                 } else {
@@ -82,7 +84,7 @@ where
             BackpressurePolicy::DropLatest => {
                 // Try to send the item, if the queue is full, just ignore the item (drop the latest)
                 match self.sender.try_send(item).map_err(SenderError::TrySendError) {
-                    Ok(_) => Ok(self.receiver.len() as i64),
+                    Ok(_) => Ok(self.sender.len() as i64),
                     Err(err) => {
                         #[cfg(dev)]
                         eprintln!("store: dropping the latest item in channel");
@@ -101,7 +103,7 @@ where
         };
 
         if let Some(metrics) = &self.metrics {
-            metrics.queue_size(self.receiver.len());
+            metrics.queue_size(self.sender.len());
         }
         r
     }
@@ -182,7 +184,10 @@ where
             SenderChannel {
                 _name: name.to_string(),
                 sender,
-                receiver: receiver.clone(),
+                receiver: match policy {
+                    BackpressurePolicy::DropOldest => Some(receiver.clone()),
+                    _ => None,
+                },
                 policy,
                 metrics: metrics.clone(),
             },
